@@ -202,6 +202,8 @@ def show(v):
         return "%s.%s" % (show(v[1]), v[2])
     if k == "new":
         return "T%d" % v[1]
+    if k == "fresh":
+        return "new leaf made from %s" % v[1]
     if k == "when":
         return "%s when %s" % (show(v[1]), " and ".join(show(c) for c in v[2]))
     if k == "cond":
@@ -387,6 +389,10 @@ class Interp(object):
             s.fields[loc[1]] = v
             s.nstores += 1
         elif loc[0] == "slotl":
+            if loc[1].endswith("child") and isinstance(v, tuple) and v and v[0] == "call" and not roles(v):
+                # a freshly constructed child: from the node's own class (self) or from a fixed type
+                src = "self" if any(a == ("self",) for a in v[2]) else "a fixed type"
+                s.slots.append((loc[1], loc[2], ("fresh", src), s.ctx, ()))
             if roles(v):
                 a = self.assumptions(s, v, loc[1])
                 s.slots.append((loc[1], loc[2], ("when", v, a) if a else v, s.ctx, ()))
@@ -720,7 +726,7 @@ class Interp(object):
         if fn is not None and self.tu.body(name) is not None and self.depth < 4 and \
                 (self.inline_worthy(vals) or (getattr(self, "in_cond", 0) and self.is_predicate(name))):
             return self.inline(name, vals, s)
-        return [(("call", name or "?", tuple(v for v in vals if roles(v))), s)]
+        return [(("call", name or "?", tuple(v for v in vals if roles(v) or v == ("self",))), s)]
 
     def is_predicate(self, name):
         """a small loop-free function returning int: a test factored out"""
@@ -1292,6 +1298,7 @@ SPEC = {
         "state of 1 element(s): firstbucket=data[0].child",
         "state of 2 element(s): firstbucket=state[1]",
         "state: data.child[j]=state[0][2j] when not PyTuple_Check(state[0][2j]) (0<=j<(size(state[0])+1)/2)",
+        "state: data.child[j]=new leaf made from self (0<=j<(size(state[0])+1)/2)",
         "state: data.key[j]=state[0][2j-1] (1<=j<(size(state[0])+1)/2)",
         "state: len=(size(state[0])+1)/2",
         "state: load (data[j].child, state[0][2j] when PyTuple_Check(state[0][2j]) and not param noval) "
